@@ -157,4 +157,39 @@ theorem orientedCover_degrees (s : DSymData) (hs : ValidTables s) (hsz : 1 ≤ s
       hs.mPartial_adj hi hp.1 hp.2, hreq]
     exact ⟨rfl, rfl, rfl⟩
 
+/-- **the oriented cover of a valid symbol is a valid symbol**: far operations of the double cover
+    commute (the periods of a chamber are those of its projection, and `(op_j ∘ op_i)²` fixes every
+    chamber of the base for `|i - j| > 1`) -/
+theorem orientedCover_validSym (s : DSymData) (hs : ValidSym s) (hsz : 1 ≤ s.size) (hdim : 1 ≤ s.dim)
+    (ho : s.view.isOriented = false) :
+    ∃ c, orientedCover s = .ok c ∧ c.size = 2 * s.size ∧ c.dim = s.dim ∧ ValidSym c := by
+  have hσ := oriSheetMap_compat s hs.set s.view.partialOrientation
+  obtain ⟨c, hc, hsize, hdim', hct, hop, _⟩ := cover_ok s hs.toValidTables hsz hdim (n := 2) (by decide) hσ
+  have hpin : s.view.PInvol := by rw [s.view_eq]; exact hs.set.pinvol
+  have hori := partialOrientation_total hpin
+  refine ⟨c, ?_, hsize, hdim', hct, ?_⟩
+  · rw [orientedCover_eq, if_neg (by rw [ho]; simp)]; exact hc
+  · intro i j d hij hj h1 h2
+    have hjs : j ≤ s.dim := by rw [← hdim']; exact hj
+    have his : i ≤ s.dim := by omega
+    have hic : i ≤ c.dset.dim := by rw [show c.dset.dim = c.dim from rfl, hdim']; exact his
+    have h2' : d ≤ 2 * s.size := by rw [← hsize]; exact h2
+    have hp := cproj_range (d := d) hsz
+    -- 2 is a period of the projection
+    have hbase : IsPeriod s.dset i j 2 (cproj s.size d) := by
+      show s.dset.opU j (s.dset.opU i (s.dset.opU j (s.dset.opU i (cproj s.size d)))) = cproj s.size d
+      have r1 := hs.set.range i _ his hp.1 hp.2
+      rw [← hs.far i j _ hij hjs r1.1 r1.2, hs.set.invol i _ his hp.1 hp.2, hs.set.invol j _ hjs hp.1 hp.2]
+    have hP := (dc_period_iff hs.set hsz hori hct.set hsize hdim' hop his hjs h1 h2').2 hbase
+    have hP' : c.dset.opU j (c.dset.opU i (c.dset.opU j (c.dset.opU i d))) = d := hP
+    have r1 := hct.set.range i d hic h1 h2
+    have r2 := hct.set.range j _ hj r1.1 r1.2
+    have r3 := hct.set.range i _ hic r2.1 r2.2
+    have e1 : c.dset.opU i (c.dset.opU j (c.dset.opU i d)) = c.dset.opU j d := by
+      have := hct.set.invol j _ hj r3.1 r3.2
+      rw [hP'] at this; exact this.symm
+    have e2 := hct.set.invol i _ hic r2.1 r2.2
+    rw [e1] at e2
+    exact e2.symm
+
 end DSymVerif.DS
